@@ -289,7 +289,11 @@ func renderStorm(rounds int) {
 		wg.Add(1)
 		go func() {
 			defer wg.Done()
-			for i := 0; i < 6*rounds; i++ {
+			n := 6 * rounds
+			if n > 60 {
+				n = 60 // the thorough tier repeats the scenario bodies more often, not this one
+			}
+			for i := 0; i < n; i++ {
 				mt := fmt.Sprintf("image/x-%d-%d", g, i)
 				bio := fmt.Sprintf("<p>bio %d</p><ul><li>one %d</li><li><b>two</b></li></ul><blockquote>quote <i>%d</i></blockquote><pre>a\nb</pre>", g, i, g)
 				author := func(n string) M {
@@ -658,9 +662,9 @@ func raceSupplement(r *ev.Report) {
 	}
 	// the bodies normally take seconds; the bound only matters when one of them never returns
 	// (a deadlock in free-running mode), which must not hang the check
-	limit := 10 * time.Minute
+	limit := 30 * time.Minute
 	if r.Thorough() {
-		limit = 40 * time.Minute
+		limit = 90 * time.Minute
 	}
 	ctx, cancel := context.WithTimeout(context.Background(), limit)
 	defer cancel()
@@ -671,7 +675,7 @@ func raceSupplement(r *ev.Report) {
 	text := string(out)
 	if i := strings.Index(text, "race-bodies: HUNG in "); i >= 0 {
 		name := strings.Fields(text[i+len("race-bodies: HUNG in "):])[0]
-		r.Violation("race-supplement:hang:"+name[:strings.Index(name+"-", "-")], replay{name, nil, []string{"free-running (real goroutines, real sync): the scenario body did not return within 3 minutes (deadlock)"}})
+		r.Violation("race-supplement:hang:"+name[:strings.Index(name+"-", "-")], replay{name, nil, []string{"free-running (real goroutines, real sync): the scenario body did not return within 10 minutes (deadlock)"}})
 		return
 	}
 	if ctx.Err() != nil {
@@ -728,7 +732,7 @@ func main() {
 			go func() { f(); close(done) }()
 			select {
 			case <-done:
-			case <-time.After(3 * time.Minute):
+			case <-time.After(10 * time.Minute):
 				fmt.Printf("race-bodies: HUNG in %s\n", name)
 				os.Exit(7)
 			}
